@@ -449,3 +449,49 @@ Proof.
   cbn. split; [|split; [intros t []|exact I]].
   intros t [<-|[]] a. unfold fp, in_span. cbn [s_addr]. lia.
 Qed.
+
+(* every selected function does get its change *)
+Lemma expect_selected O c m vis s e code a :
+  disjoint_fps vis -> In s vis -> spec_change O c m s = Some (e, code) ->
+  in_span e (N.of_nat (length code)) a = true ->
+  expect O c m vis a = nth (N.to_nat (a - e)) code 0.
+Proof.
+  unfold expect. induction vis as [|t r IH]; intros D I E Ha; [destruct I|].
+  cbn [changes]. destruct D as [Dt Dr].
+  destruct (sym_eq_dec t s) as [->|Ne].
+  - rewrite E. cbn [apply_changes]. now rewrite Ha.
+  - destruct I as [->|I]; [exfalso; now apply Ne|].
+    destruct (spec_change O c m t) as [[e' code']|] eqn:E'.
+    + cbn [apply_changes]. destruct (in_span e' (N.of_nat (length code')) a) eqn:I'.
+      * exfalso. pose proof (spec_change_span O c m t e' code' a E' I') as Ft.
+        pose proof (spec_change_span O c m s e code a E Ha) as Fs.
+        rewrite (Dt s I a Ft) in Fs. discriminate.
+      * now apply IH.
+    + now apply IH.
+Qed.
+
+Theorem selected_patched O c syms targets m k s e code :
+  disjoint_fps (visited c syms targets) -> In s (visited c syms targets) ->
+  spec_change O c m s = Some (e, code) ->
+  rd (fst (patch_func_matched O c syms targets (m, k))) e (length code) = code.
+Proof.
+  intros D I E. apply nth_ext with (d := 0) (d' := 0); [apply rd_length|].
+  rewrite rd_length. intros i Hi. rewrite nth_rd by exact Hi.
+  rewrite update_exact by exact D.
+  rewrite (expect_selected O c m _ s e code (e + N.of_nat i) D I E) by (unfold in_span; lia).
+  replace (e + N.of_nat i - e) with (N.of_nat i) by lia. now rewrite Nat2N.id.
+Qed.
+
+(* in particular: last match -P, big enough, NOP form at the entry  ==>  `call trampoline` at the entry *)
+Corollary selected_gets_call O c syms targets m k s :
+  disjoint_fps (visited c syms targets) -> In s (visited c syms targets) ->
+  spec_decision O c s = 1%Z -> patchable c m s = true ->
+  rel32 (c_tramp c) (entry_of m (s_addr s)) <> 0%Z ->
+  rd (fst (patch_func_matched O c syms targets (m, k))) (entry_of m (s_addr s)) 5
+  = call_insn (c_tramp c) (entry_of m (s_addr s)).
+Proof.
+  intros D I Hd Hp Hr.
+  apply (selected_patched O c syms targets m k s (entry_of m (s_addr s)) (call_insn (c_tramp c) (entry_of m (s_addr s))) D I).
+  unfold spec_change. rewrite Hd. cbn [Z.eqb Pos.eqb]. rewrite Hp.
+  destruct (Z.eqb_spec (rel32 (c_tramp c) (entry_of m (s_addr s))) 0); [contradiction|reflexivity].
+Qed.
